@@ -64,17 +64,64 @@ def outcomeOf : String → Outcome
   | "crashAfter" => .crashAfter
   | _ => .ok
 
-def planOf (fs : List Json) : Plan := fun i =>
-  match fs.find? (fun f => nat f "k" == i) with
-  | some f => outcomeOf (str f "o")
-  | none => .ok
+/-- the error class the code can tell apart (Forbidden, Invalid, a Temporary() transport
+error, context deadline exceeded: all `other`) -/
+def classOf : String → Option ErrRep
+  | "notFound" => some .notFound
+  | "alreadyExists" => some .alreadyExists
+  | "conflictErr" => some .conflict
+  | "forbidden" => some .other
+  | "invalid" => some .other
+  | "timeout" => some .other
+  | "deadline" => some .other
+  | _ => none
+
+def editOf (j : Json) : Option Edit :=
+  match str j "op" with
+  | "setRole" => some (.setRole (roleOf (obj j "role")))
+  | "delRole" => some (.delRole (str j "name"))
+  | "setPR" => some (.setPR (prOf (obj j "pr")))
+  | "delPR" => some (.delPR (str j "name"))
+  | "setXRD" => some (.setXRD (xrdOf (obj j "xrd")))
+  | "delXRD" => some (.delXRD (str j "name"))
+  | "setDeploy" => some (.setDeploy (deployOf (obj j "deploy")))
+  | "delDeploy" => some (.delDeploy (str j "ns") (str j "name"))
+  | "setBinding" => some (.setBinding (bindingOf (obj j "binding")))
+  | "delBinding" => some (.delBinding (str j "name"))
+  | _ => none
+
+def editsOf (j : Json) (k : String) : List Edit := (arr j k).filterMap editOf
+
+def applyEdits (s : Store) (es : List Edit) : Store := es.foldl applyEdit s
+
+/-- the world of one round: events are indexed by the call number within the round -/
+def worldOf (evs : List Json) (snap0 snapR : Store) : World :=
+  let ev := fun (k : Nat) => evs.find? (fun e => nat e "k" == k)
+  { plan := fun k => match ev k with | some e => outcomeOf (str e "o") | none => .ok,
+    inj := fun k => match ev k with | some e => classOf (str e "o") | none => none,
+    env := fun k s => match ev k with | some e => applyEdits s (editsOf e "edits") | none => s,
+    view := fun k s => match ev k with
+      | some e =>
+        let base := match str e "view" with
+          | "old" => snapR
+          | "old0" => snap0
+          | _ => s
+        hideNames (strs e "miss") base
+      | none => s }
 
 def writeName : Req → Option String
   | .createRole r => some ("create:" ++ r.name)
-  | .updateRole r => some ("update:" ++ r.name)
+  | .updateRole r _ => some ("update:" ++ r.name)
   | .createBinding b => some ("create:" ++ b.name)
-  | .updateBinding b => some ("update:" ++ b.name)
+  | .updateBinding b _ => some ("update:" ++ b.name)
   | _ => none
+
+/-- the writes that took effect -/
+def effWrites (own : List (Store × Req)) : List String :=
+  own.filterMap fun (st, r) =>
+    match (exec st r).2 with
+    | .done => writeName r
+    | _ => none
 
 def resultStr : Option Result → String
   | none => "crashed"
@@ -99,6 +146,35 @@ def soundOn (allow requests : List PolicyRule) : Bool :=
   (requests.all fun q => (breakdown q).all fun s =>
     !subOk s || !(tree allow).allowed s.toRule.path || covers allow s)
 
+/-- `writes_justified_by_reads_interf` & co., evaluated on the round's own calls: every write
+that took effect has, earlier in the same round, the reads that justify it -/
+def justifiedOn (kind : String) (cfg : Cfg) (target : String) (own : List (Store × Req)) : Bool :=
+  let rec go (pre : List (Store × Req)) : List (Store × Req) → Bool
+    | [] => true
+    | (st, r) :: rest =>
+      (if !r.isWrite then true else
+        match kind with
+        | "xrd" => pre.any fun (s1, q) => match q with
+            | .getXRD n => n == target && (match s1.xrds.find? (·.name = n) with | some d => !d.deleted | none => false)
+            | _ => false
+        | "binding" => pre.any fun (s1, q) => match q with
+            | .getPR n => n == target && (match s1.prs.find? (·.name = n) with | some p => !p.paused && !p.deleted | none => false)
+            | _ => false
+        | _ =>
+          pre.any fun (s1, q) => match q with
+            | .getPR n => n == target && (match s1.prs.find? (·.name = n) with
+                | some p => !p.paused && !p.deleted &&
+                    (match cfg.allowRole with
+                     | none => (expand p.requests).isEmpty
+                     | some a => pre.any fun (s3, q3) => match q3 with
+                         | .getRole n3 => n3 == a && (match s3.roles.find? (·.name = a) with
+                             | some ar => (validate ar.rules p.requests).isEmpty
+                             | none => false)
+                         | _ => false)
+                | none => false)
+            | _ => false) && go (pre ++ [(st, r)]) rest
+  go [] own
+
 def handler : Handler := fun scn =>
   let kind := str scn "kind"
   let allow := (arr scn "allow").map pruleOf
@@ -107,14 +183,25 @@ def handler : Handler := fun scn =>
     let t := ((arr scn "paths").map pathOf).foldl (fun t q => t.allow q) Node.empty
     let res := (arr scn "queries").map fun q => Json.bool (t.allowed (pathOf q))
     let out := Json.mkObj [("allowed", Json.arr res.toArray), ("rejected", Json.arr #[]), ("verr", .bool false),
-      ("cov", Json.arr #[]), ("results", Json.arr #[]), ("writes", Json.arr #[]), ("roles", Json.arr #[]), ("bindings", Json.arr #[])]
+      ("cov", Json.arr #[]), ("results", Json.arr #[]), ("writes", Json.arr #[]), ("roles", Json.arr #[]), ("bindings", Json.arr #[]),
+      ("preRej", Json.arr #[]), ("preErr", Json.arr #[])]
     .ok (out, true, "")
   else if kind == "validate" then
     let requests := (arr scn "requests").map pruleOf
-    let rej := validate allow requests
+    let done := str scn "ctx" == "done"
+    -- validator "none" = VerySecureValidator = Expand of the requests
+    let verdict := if str scn "validator" == "none" then expandCtx done requests else validateCtx done allow requests
+    let rej := verdict.getD []
     let cov := requests.flatMap fun q => (breakdown q).map fun s => Json.bool (covers allow s)
-    let out := Json.mkObj [("allowed", Json.arr #[]), ("rejected", Json.arr (rej.map ruleJson).toArray), ("verr", .bool false),
-      ("cov", Json.arr cov.toArray), ("results", Json.arr #[]), ("writes", Json.arr #[]), ("roles", Json.arr #[]), ("bindings", Json.arr #[])]
+    -- the earlier validations of the same long-lived validator: each is a call of its own
+    let pre := arr scn "pre"
+    let preRej := pre.map fun st =>
+      if bool st "gone" then Json.arr #[]
+      else Json.arr ((validate ((arr st "allow").map pruleOf) ((arr st "requests").map pruleOf)).map ruleJson).toArray
+    let preErr := pre.map fun st => Json.bool (bool st "gone")
+    let out := Json.mkObj [("allowed", Json.arr #[]), ("rejected", Json.arr (rej.map ruleJson).toArray), ("verr", .bool verdict.isNone),
+      ("cov", Json.arr cov.toArray), ("results", Json.arr #[]), ("writes", Json.arr #[]), ("roles", Json.arr #[]), ("bindings", Json.arr #[]),
+      ("preRej", Json.arr preRej.toArray), ("preErr", Json.arr preErr.toArray)]
     let ok := soundOn allow requests
     .ok (out, ok, if ok then "" else "C18:tree-sound-partial-false")
   else
@@ -127,19 +214,21 @@ def handler : Handler := fun scn =>
       roles := (if validator == "role" then [(⟨allowName, [], allow, none⟩ : Role)] else []) ++ pre,
       bindings := (arr scn "bindings").map bindingOf }
     let cfg : Cfg := ⟨if validator == "none" then none else some allowName⟩
-    let prog : P := match kind with
-      | "xrd" => reconcileXRD target
-      | "binding" => reconcileBinding target
-      | _ => reconcile cfg target
-    -- rounds
-    let step := fun (acc : Store × List String × List (List String)) (fs : Json) =>
-      let (s, results, writes) := acc
-      let faults := match fs with | .arr a => a.toList | _ => []
-      let plan := planOf faults
-      let r := run sem plan 0 prog s
-      let ws := (applied sem plan 0 prog s).filterMap writeName
-      (r.1, results ++ [resultStr r.2], writes ++ [ws])
-    let (sN, results, writes) := (arr scn "faults").foldl step (s0, [], [])
+    let progOf : String → P := fun t => match kind with
+      | "xrd" => reconcileXRD t
+      | "binding" => reconcileBinding t
+      | _ => reconcile cfg t
+    -- rounds: edits by other writers between the reconciles, then one reconcile in its world
+    let step := fun (acc : Store × List String × List (List String) × Bool) (rd : Json) =>
+      let (s, results, writes, just) := acc
+      let s1 := applyEdits s (editsOf rd "pre")
+      let w := worldOf (arr rd "evs") s0 s1
+      let prog := progOf (str rd "target")
+      let r := runW w 0 prog s1
+      let own := ownW w 0 prog s1
+      (r.1, results ++ [resultStr r.2], writes ++ [effWrites own],
+        just && justifiedOn kind cfg (str rd "target") (own.filter fun (st, q) => !q.isWrite || (match (exec st q).2 with | .done => true | _ => false)))
+    let (sN, results, writes, just) := (arr scn "rounds").foldl step (s0, [], [], true)
     -- what the configured validator says about the target's requests on the initial store
     let tgt := if kind == "reconcile" then prs.find? (·.name = target) else none
     let (rej, verr) : List Rule × Bool := match tgt with
@@ -154,13 +243,8 @@ def handler : Handler := fun scn =>
       ("cov", Json.arr #[]), ("results", jstrs results),
       ("writes", Json.arr (writes.map jstrs).toArray),
       ("roles", Json.arr (roles.map roleJson).toArray),
-      ("bindings", Json.arr (bindings.map bindingJson).toArray)]
-    -- model-side evaluation of reject_means_no_role / inactive ⇒ no write
-    let anyWrite := writes.any (!·.isEmpty)
-    let inactive := match kind with
-      | "xrd" => match s0.xrds.find? (·.name = target) with | some d => d.deleted | none => true
-      | _ => match prs.find? (·.name = target) with | some p => p.paused || p.deleted | none => true
-    let ok := !(anyWrite && (inactive || !rej.isEmpty || verr))
-    .ok (out, ok, if ok then "" else "C18:write-despite-rejection-in-model")
+      ("bindings", Json.arr (bindings.map bindingJson).toArray),
+      ("preRej", Json.arr #[]), ("preErr", Json.arr #[])]
+    .ok (out, just, if just then "" else "C18:write-not-justified-by-reads-in-model")
 
 end Xp.C18
